@@ -227,6 +227,28 @@ def run_case(ctx, c):
             colx = xsel.index(a1)
             if gd is None or gd.shape[1] != 1 or not np.array_equal(gd[:, 0], rec_x[:, colx]):
                 ctx.fail('get_data_returns_other_values', dict(case=brief, var='GENROU.omega', sub=[1]), sig=sig)
+    # get_data by variable (all devices) for states and algebraic variables, with and without an Output selection:
+    # the columns returned are exactly the stored columns of that variable's selected addresses
+    if not c['limit_store']:
+        probes = []
+        for mname, vname in (('Bus', 'v'), ('Bus', 'a'), ('GENROU', 'omega'), ('GENROU', 'delta'), ('GENROU', 'vd'), ('GENCLS', 'omega'),
+                             ('PQ', 'v'), ('TGOV1', 'pout'), ('EXDC2', 'vout')):
+            mdl = ss.models.get(mname)
+            if mdl is not None and mdl.n > 0 and vname in mdl.__dict__ and len(mdl.__dict__[vname].a):
+                probes.append((mname, vname, mdl.__dict__[vname]))
+        for mname, vname, var in probes:
+            sel, rec = (xsel, rec_x) if var.v_code == 'x' else (ysel, rec_y)
+            cols = [sel.index(int(a)) for a in var.a if int(a) in sel]
+            try:
+                gd = ts.get_data(var)
+            except Exception as e:
+                ctx.fail('get_data_raised', dict(case=brief, var='%s.%s' % (mname, vname), error='%s: %s' % (type(e).__name__, str(e)[:150])), sig=sig)
+                continue
+            want = rec[:, cols] if cols else np.zeros((rec.shape[0], 0))
+            if gd is None or gd.shape != want.shape or not np.array_equal(gd, want):
+                ctx.fail('get_data_returns_other_values', dict(case=brief, var='%s.%s' % (mname, vname), got_shape=list(np.shape(gd)), expected_shape=list(want.shape),
+                                                               selected=bool(c['select'])), sig=dict(sig, code=var.v_code, by_variable=True))
+            ctx.count('get_data:by_variable:%s:%s' % (var.v_code, 'subset' if (c['select'] and cols and len(cols) < len(sel)) else 'plain'))
     # replay
     if not c['select'] or (xsel or ysel):
         ss2 = build.load_case(path, rc={'PFlow': dict(report=0), 'TDS': dict(no_tqdm=1, tf=c['tf'], criteria=0)}, setup=False)
